@@ -609,7 +609,7 @@ def dwarf_offsets(d, workdir, names):
 
 # =============================================================================== Python side
 PY_PROBE = r'''
-import sys, json, ctypes, inspect, ast, textwrap, pkgutil, importlib, warnings
+import sys, json, ctypes, inspect, ast, textwrap, pkgutil, importlib, importlib.util, warnings
 warnings.filterwarnings("ignore")
 sys.path.insert(0, sys.argv[1])
 out = {"import_error": None}
@@ -747,9 +747,15 @@ for cname, c in list(classes.items()):
             names |= nxt
             frontier = nxt
         used = sorted(n for n in names if n in dicts)
+        # normalisation the setter applies to a string argument: .lower() and .replace(c, "") calls (also inside followed helpers)
+        bodies = [node] + [modtree[fn] for fn in seenf]
+        lower_ = any(isinstance(n, ast.Call) and isinstance(n.func, ast.Attribute) and n.func.attr == "lower" for b in bodies for n in ast.walk(b))
+        strip_ = sorted({n.args[0].value for b in bodies for n in ast.walk(b)
+                         if isinstance(n, ast.Call) and isinstance(n.func, ast.Attribute) and n.func.attr == "replace" and len(n.args) == 2
+                         and all(isinstance(a, ast.Constant) and isinstance(a.value, str) for a in n.args) and n.args[1].value == "" and len(n.args[0].value) == 1})
         selfattrs = sorted({n.attr for n in ast.walk(node) if isinstance(n, ast.Attribute) and isinstance(n.value, ast.Name) and n.value.id == "self"})
         if used:
-            props.append(dict(cls=cname, prop=node.name, role="set" if is_setter else "get", dicts=used, attrs=selfattrs))
+            props.append(dict(cls=cname, prop=node.name, role="set" if is_setter else "get", dicts=used, attrs=selfattrs, lower=lower_, strip=strip_))
         if is_setter:
             # if func == "lit": ... clibrebound.<symbol> ...
             for sub in ast.walk(node):
@@ -807,10 +813,25 @@ def argkind(a):
         if isinstance(a.value, float): return ["opaque", "python-float"]
     return ["opaque", "?"]
 decls, calls, dynamic = [], [], []
-for m in mods:
+class _SrcOnly:
+    """a module that cannot be imported in this environment (missing third-party dependency): its source is still walked"""
+    def __init__(self, name, path):
+        self.__name__, self._path = name, path
+        self.__dict__.update({k: v for k, v in vars(ctypes).items() if not k.startswith("__")})
+        self.__dict__.update({k: v for k, v in vars(rebound).items() if not k.startswith("__")})
+        self.__dict__["clibrebound"] = rebound.clibrebound
+srcmods = list(mods)
+for mi in pkgutil.walk_packages(rebound.__path__, "rebound."):
+    if ".tests" in mi.name or mi.name in sys.modules:
+        continue
+    spec = importlib.util.find_spec(mi.name)
+    if spec is not None and spec.origin and spec.origin.endswith(".py"):
+        srcmods.append(_SrcOnly(mi.name, spec.origin))
+out["modules_walked_from_source_only"] = [m.__name__ for m in srcmods if isinstance(m, _SrcOnly)]
+for m in srcmods:
     mn = getattr(m, "__name__", "")
     try:
-        src = inspect.getsource(m)
+        src = open(m._path).read() if isinstance(m, _SrcOnly) else inspect.getsource(m)
         tree = ast.parse(src)
     except Exception:
         continue
@@ -1020,6 +1041,10 @@ def lean_options(cs, py, ref):
     L.append("/-- ctypes fields whose descriptor replaces a property/method of the same name in the class body: (class, field) -/")
     sh = ["  (%s, %s)" % (lstr(c), lstr(n)) for c, v in sorted(py["classes"].items()) for n in v.get("shadowed", [])]
     L.append("def pyShadowed : List (Name × Name) := [%s]\n" % ("\n" + ",\n".join(sh) + "\n" if sh else ""))
+    sp = ["  ⟨%s, %s, %s, %s, [%s]⟩" % (lstr(p["cls"]), lstr(p["prop"]), lstr(dn), "true" if p.get("lower") else "false", ", ".join(str(ord(ch)) for ch in p.get("strip", [])))
+          for p in py["props"] if p["role"] == "set" for dn in p["dicts"]]
+    L.append("/-- the normalisation each option setter applies to a string (AST): ⟨class, property, dictionary, lower-cases, characters stripped⟩ -/")
+    L.append("def pySetterSpecs : List SetterSpec := [\n%s\n]\n" % ",\n".join(sp))
     L.append("/-- literal option names of property setters and what their branch assigns: (class, property, name, [(attribute path, literal or ?)]) -/")
     cr = ["  (%s, %s, %s, [%s])" % (lstr(x["cls"]), lstr(x["prop"]), lstr(x["name"]), ", ".join("(%s, %s)" % (lstr(a), lstr(b)) for a, b in x["stores"]))
           for x in py.get("composites", [])]
